@@ -234,11 +234,12 @@ func c09Main(r *hx.Run) {
 		}
 	}
 	// S part
+	r.EnsureBudget(60 * time.Second)
 	hx.SetWorkerMode("s")
 	scens := c09Scenarios(r)
 	ss := hx.ExploreAll(r, scens, false, 0)
 	for k := range ss.Found {
-		if !strings.HasPrefix(k, "C09|") && !strings.HasPrefix(k, "panic|") && !strings.HasPrefix(k, "engine|") {
+		if !strings.HasPrefix(k, "C09|") && !strings.HasPrefix(k, "panic|") && !hx.KeptKey(k) {
 			delete(ss.Found, k)
 		}
 	}
